@@ -153,6 +153,7 @@ PROPS["C08"] = {
         rapid("decision-procedure", "group", "TestVerif_C08_DecisionProcedure", 4000, 30000),
         rapid("makepassword-roundtrip", "galenectl", "TestVerif_C08_MakePasswordRoundTrip", 1200, 8000),
         rapid("login-machine", "rtpconn", "TestVerif_C08_LoginMachine", 250, 2000, quick_shards=4),
+        rapid("api-reads-vs-logins", "webserver", "TestVerif_C08_ApiReadsVsLogins", 160, 1200, shards=8, quick_shards=4),
     ],
     "technique": "property-based testing (rapid) against an independent decision procedure; metamorphic login-after-moderation machine",
     "assumptions": ["bcrypt inputs restricted to NUL-free strings of <=72 bytes, pbkdf2 keys >=16 bytes (limits of the primitives, not galene's claim)"],
